@@ -29,6 +29,8 @@ NATIVE_DATATYPE = {
 }
 INTS = {"integer", "long", "int", "short", "byte", "unsignedLong", "unsignedInt", "unsignedShort", "unsignedByte",
         "nonNegativeInteger", "nonPositiveInteger", "negativeInteger", "positiveInteger"}
+# per target: datatypes whose lexical form must be parsed as a *narrower* Rust type first (and then widened)
+PARSE_AS = {"f64": {"float": "f32"}}
 WHITELIST = {
     # target -> xsd types whose value space consists of values the target's FromStr denotes identically
     "f64": {"double", "float", "decimal"} | INTS,
@@ -62,8 +64,45 @@ def static_behind_lazy(facts, fn, operand):
     return None
 
 
+def sparql_nonfinite_rule(ck, facts):
+    """R20.3: values computed by the SPARQL engine are turned into literals by SparqlValue::lexical_form; floats and doubles are
+    formatted with `{:e}` (LowerExp), which prints infinities as `inf` / `-inf` - not lexical forms of xsd:float / xsd:double
+    (INF / -INF), and not term-equal to f64::INFINITY used as a term.  Every LowerExp formatting of a float must be on the
+    not-infinite edge of an is_infinite / is_finite test."""
+    if "sophia_sparql" not in facts.crates:
+        ck.ok("R20.3", "sophia_sparql not in this build", nontrivial=False)
+        return
+    fns = facts.find_fns(crate="sophia_sparql", name_re=r"^value::SparqlValue::lexical_form$")
+    if len(fns) != 1:
+        ck.bad("R20.3", "R20.3@SparqlValue::lexical_form#anchor", "anchor-missing (%d)" % len(fns))
+        return
+    fn = fns[0]
+    exps = [(bi, t) for bi, t in fn.calls() if call_name_matches(t, r"fmt::rt::Argument::<'_>::new_lower_exp$|new_upper_exp$|new_display$")
+            and re.search(r"&f(32|64)\b", fn.locals[t["args"][0][1][0]]["ty"] if t["args"][0][0] != "k" else "")]
+    if not exps:
+        ck.bad("R20.3", "R20.3@SparqlValue::lexical_form#anchor", "anchor-missing: the formatting of floats / doubles", fn.loc)
+        return
+    guards = []
+    for bi, t in fn.calls():
+        if call_name_matches(t, r"is_infinite$|is_finite$"):
+            for cand in sorted(fn.reachable(t["to"])):
+                bs = bool_switch(fn, cand)
+                if bs and bs[0][0] == "call" and bs[0][1] is t:
+                    finite_edge = bs[2] if call_name_matches(t, r"is_infinite$") else bs[1]
+                    guards.append((cand, finite_edge))
+                    break
+    unguarded = [t for bi, t in exps if not any(edge_dominates(fn, (g, e), bi) for g, e in guards)]
+    if unguarded:
+        ck.bad("R20.3", "R20.3@SparqlValue::lexical_form#non-finite", "floats / doubles computed by the engine are formatted with `{:e}` on paths "
+               "with no is_infinite / is_finite test: `SELECT (1e308*10 AS ?x) {}` and `1/0e0` return \"inf\"^^xsd:double, an ill-typed "
+               "literal that is not term-equal to f64::INFINITY as a term (\"INF\")", "%s:%s" % (unguarded[0]["file"], unguarded[0]["line"]))
+    else:
+        ck.ok("R20.3", "SparqlValue::lexical_form formats floats / doubles only on the finite edge of a test")
+
+
 def run(ck, facts, tier):
-    facts.require_crates(["sophia_api"])
+    facts.require_crates(["sophia_api", "sophia_sparql"])
+    sparql_nonfinite_rule(ck, facts)
     terms = impls_for(facts, "term::Term")
     tries = impls_for(facts, "term::TryFromTerm")
     ck.floor("R20.1", "native Term impls", len([t for t in terms if t in NATIVE_DATATYPE]), 6)
@@ -237,7 +276,17 @@ def run(ck, facts, tier):
                     ck.bad("R20.2", key + "#error-constant", "error path parses %r, which may succeed" % v, "%s:%s" % (t["file"], t["line"]))
                 continue
             target = (t["f"].get("substs") or ["?"])[0]
-            if target != ty:
+            # which datatype tests lead here (true edge, not through the same test's false edge)?
+            via = sorted({st_.split("::")[-1] for c_, te, st_ in tests
+                          if bi in fn.reachable(te, avoid={x for x in fn.succs(c_) if x != te})})
+            wrong = [n for n in via if PARSE_AS.get(ty, {}).get(n, ty) != target]
+            if wrong:
+                ck.bad("R20.2", key + "#parse-type:%s-as-%s" % (wrong[0], target), "the lexical form of an xsd:%s literal is parsed as `%s` in the "
+                       "conversion to `%s` (expected `%s`): the conversion succeeds with a value the literal does not denote "
+                       "(\"16777217\"^^xsd:float denotes 16777216; \"1e39\"^^xsd:float denotes INF)" % (wrong[0], target, ty, PARSE_AS.get(ty, {}).get(wrong[0], ty)),
+                       "%s:%s" % (t["file"], t["line"]))
+                continue
+            if not via and target != ty:
                 ck.bad("R20.2", key + "#parse-type:%s" % target, "the lexical form is parsed as `%s` in the conversion to `%s`: forms that "
                        "are valid for %s but not for %s (or the reverse) get a value the literal does not denote" % (target, ty, target, ty),
                        "%s:%s" % (t["file"], t["line"]))
